@@ -14,6 +14,7 @@ import (
 	"path/filepath"
 	"sort"
 	"strings"
+	"unicode"
 
 	"github.com/go-text/typesetting/font"
 	"github.com/go-text/typesetting/fontscan"
@@ -209,6 +210,14 @@ func (e *fmEngine) Generate(seed uint64, tier string, run int) (json.RawMessage,
 		case "setquery":
 			if len(lastQueries) > 0 && rg.Chance(0.4) {
 				op = kernel.Pick(rg, lastQueries) // back and forth between a few queries
+				if len(op.Families) > 0 && rg.Chance(0.3) {
+					// the same query spelled differently (case, blanks): family names are compared after
+					// normalisation, generic keywords are not
+					fams := append([]string(nil), op.Families...)
+					i := rg.Intn(len(fams))
+					fams[i] = respell(rg, fams[i])
+					op.Families = fams
+				}
 			} else {
 				for i := rg.Range(0, 3); i > 0; i-- {
 					if rg.Chance(0.2) {
@@ -827,4 +836,40 @@ func (e *fmEngine) Shrink(raw json.RawMessage, class string, test func(json.RawM
 		return raw
 	}
 	return b
+}
+
+// respell returns another spelling of a family name: upper/lower case flips and blanks added
+// or removed.
+func respell(r *kernel.Rand, fam string) string {
+	b := []rune(fam)
+	switch r.Intn(4) {
+	case 0:
+		for i := range b {
+			if r.Chance(0.5) {
+				b[i] = unicode.ToUpper(b[i])
+			}
+		}
+	case 1:
+		if len(b) > 0 {
+			b[0] = unicode.ToUpper(b[0])
+		}
+	case 2:
+		b = append(b, ' ')
+		if r.Chance(0.5) {
+			b = append([]rune{' '}, b...)
+		}
+	default:
+		var o []rune
+		for _, c := range b {
+			if c == ' ' {
+				continue
+			}
+			o = append(o, c)
+			if r.Chance(0.15) {
+				o = append(o, ' ')
+			}
+		}
+		b = o
+	}
+	return string(b)
 }
